@@ -101,7 +101,7 @@ CLAIMED["C15"] = dict(
          "each library total is the documented sum of parts on one and the same model object, (D4) each printed "
          "sum and percentage of both detailed writers is an algebraic identity of its printed parts / stated "
          "reference, identical in the try and fallback branch, (D5) defaults equal the README table. These are "
-         "identities of the program text, valid for every input and all 480 option combinations.",
+         "identities of the program text, valid for every input and all 480 option combinations. (D6) The echo clause structurally: the SLHA container is written only by the readers and by fill_block_entry, every model filler is a const member, and the program writes only the documented output blocks.",
     note=TRUST + "README.md is parsed as the statement of documented behaviour. Not decided: printed digits and "
          "rounding, the echo of the input blocks (SLHAea).",
     ref="3 C15")
